@@ -49,7 +49,8 @@ def improve_builtin_exceptions(exception):
     Returns:
         Exception: A new exception, or the original one unchanged.
     """
-    if isinstance(exception, BuiltinKeyError):
+    # (only the builtin itself: a student's own subclass of KeyError stays what it is)
+    if type(exception) is BuiltinKeyError:
         return KeyError(exception, "key not found")
     return exception
 
